@@ -2,6 +2,10 @@
 
 package node
 
+import "unsafe"
+
+var _ unsafe.Pointer
+
 // Interface contract of Node[K, V] over abstract (ghost) node fields. Every generated variant
 // (B, BS, BE, ... BERW) is verified against it; callers of the interface see only this contract.
 //
@@ -215,8 +219,56 @@ func specAlive[K comparable, V any](n Node[K, V]) bool {
 //@   modifies n.queueType
 //@   ensures [makeProtected] ghost_queueType(n) == InMainProtectedQueue
 
+// The twelve generated constructors New<X> (X = B, BS, BE, ... BERW) are verified, each under the feature flags of its
+// own struct, against the postconditions that Manager.Create promises to its callers.
+//@ func NewB : C01 C12 C03 C04 C11
+//@   per-variant New
+//@   fresh
+//@   requires [C12:never-in-the-past] expiresAt >= 0 && refreshableAt >= 0
+//@   ensures [C01:constructor-stores-key-and-value] result != nil && same(ghost_key(result), key) && same(ghost_value(result), value)
+//@   ensures [C12:constructor-stores-deadlines] (ghost_hasExp() ==> ghost_expiresAt(result) == expiresAt) && (ghost_hasRefresh() ==> ghost_refreshableAt(result) == refreshableAt)
+//@   ensures [C04:constructor-stores-weight] ghost_hasWeight() ==> ghost_weight(result) == weight
+//@   ensures [C05:constructor-alive-unlinked] (ghost_hasState() ==> ghost_state(result) == aliveState) && (ghost_hasSize() ==> ghost_queueType(result) == InWindowQueue && ghost_prev(result) == nil && ghost_next(result) == nil)
+//@   ensures [C13:constructor-unscheduled] ghost_hasExpLinks() ==> ghost_prevExp(result) == nil && ghost_nextExp(result) == nil
+
+//@ func CastPointerToB : C05 C01
+//@   per-variant CastPointerTo
+//@   requires ptr != nil
+//@   ensures [round-trip] result != nil && result.AsPointer() == ptr
+
+// SpecFlagsOf: the feature flags of the node variant in use are exactly the configured ones (links, queue type and
+// weight bookkeeping exist iff the cache is bounded by size or by weight; the life-cycle state iff it has maintenance).
+func SpecFlagsOf(c Config) bool {
+	return ghost_hasExp() == c.WithExpiration && ghost_hasRefresh() == c.WithRefresh && ghost_hasWeight() == c.WithWeight &&
+		ghost_hasSize() == (c.WithSize || c.WithWeight) && ghost_hasExpLinks() == c.WithExpiration &&
+		ghost_hasState() == (c.WithSize || c.WithWeight || c.WithExpiration)
+}
+
+// NewManager is verified once under the feature flags of every variant X (variantNew = New<X>, variantCast =
+// CastPointerTo<X>): whenever it selects X's constructor, X has exactly the configured features.
+//@ func NewManager : C01 C12 C03
+//@   per-variant self
+//@   var variantNew func(key K, value V, expiresAt, refreshableAt int64, weight uint32) Node[K, V]
+//@   var variantCast func(ptr unsafe.Pointer) Node[K, V]
+//@   fresh
+//@   nopanic
+//@   ensures [C01:chosen-variant-has-exactly-the-configured-features] same(result.create, variantNew) ==> SpecFlagsOf(c) && same(result.fromPointer, variantCast)
+//@   requires [one-size-discipline] !(c.WithSize && c.WithWeight)
+//@   ensures [C01:variant-b] !c.WithSize && !c.WithExpiration && !c.WithRefresh && !c.WithWeight ==> same(result.create, NewB[K, V]) && same(result.fromPointer, CastPointerToB[K, V])
+//@   ensures [C01:variant-bs] c.WithSize && !c.WithExpiration && !c.WithRefresh && !c.WithWeight ==> same(result.create, NewBS[K, V]) && same(result.fromPointer, CastPointerToBS[K, V])
+//@   ensures [C01:variant-be] !c.WithSize && c.WithExpiration && !c.WithRefresh && !c.WithWeight ==> same(result.create, NewBE[K, V]) && same(result.fromPointer, CastPointerToBE[K, V])
+//@   ensures [C01:variant-br] !c.WithSize && !c.WithExpiration && c.WithRefresh && !c.WithWeight ==> same(result.create, NewBR[K, V]) && same(result.fromPointer, CastPointerToBR[K, V])
+//@   ensures [C01:variant-bw] !c.WithSize && !c.WithExpiration && !c.WithRefresh && c.WithWeight ==> same(result.create, NewBW[K, V]) && same(result.fromPointer, CastPointerToBW[K, V])
+//@   ensures [C01:variant-bse] c.WithSize && c.WithExpiration && !c.WithRefresh && !c.WithWeight ==> same(result.create, NewBSE[K, V]) && same(result.fromPointer, CastPointerToBSE[K, V])
+//@   ensures [C01:variant-bsr] c.WithSize && !c.WithExpiration && c.WithRefresh && !c.WithWeight ==> same(result.create, NewBSR[K, V]) && same(result.fromPointer, CastPointerToBSR[K, V])
+//@   ensures [C01:variant-ber] !c.WithSize && c.WithExpiration && c.WithRefresh && !c.WithWeight ==> same(result.create, NewBER[K, V]) && same(result.fromPointer, CastPointerToBER[K, V])
+//@   ensures [C01:variant-bew] !c.WithSize && c.WithExpiration && !c.WithRefresh && c.WithWeight ==> same(result.create, NewBEW[K, V]) && same(result.fromPointer, CastPointerToBEW[K, V])
+//@   ensures [C01:variant-brw] !c.WithSize && !c.WithExpiration && c.WithRefresh && c.WithWeight ==> same(result.create, NewBRW[K, V]) && same(result.fromPointer, CastPointerToBRW[K, V])
+//@   ensures [C01:variant-bser] c.WithSize && c.WithExpiration && c.WithRefresh && !c.WithWeight ==> same(result.create, NewBSER[K, V]) && same(result.fromPointer, CastPointerToBSER[K, V])
+//@   ensures [C01:variant-berw] !c.WithSize && c.WithExpiration && c.WithRefresh && c.WithWeight ==> same(result.create, NewBERW[K, V]) && same(result.fromPointer, CastPointerToBERW[K, V])
+
 //@ func (*Manager).Create : C01 C12 C03
-//@   assumed the generated constructors NewB..NewBERW store their arguments (dispatch through a function value chosen by NewManager)
+//@   assumed dispatch only: m.create is the function value NewManager stored (never reassigned) and the abstract feature flags are those of the variant it belongs to. Verified separately: NewManager stores New<X> / CastPointerTo<X> of the variant X with exactly the configured features; each of the twelve New<X> establishes these postconditions (per-variant contract NewB)
 //@   fresh
 //@   requires [C12:never-in-the-past] expiresAt >= 0 && refreshableAt >= 0
 //@   ensures [create-fields] result != nil && same(ghost_key(result), key) && same(ghost_value(result), value)
@@ -226,5 +278,5 @@ func specAlive[K comparable, V any](n Node[K, V]) bool {
 //@   ensures [create-unlinked] ghost_hasExpLinks() ==> ghost_prevExp(result) == nil && ghost_nextExp(result) == nil
 
 //@ func (*Manager).FromPointer : C05
-//@   assumed the generated CastPointerTo* functions convert the pointer back to the node it was taken from (dispatch through a function value chosen by NewManager)
+//@   assumed dispatch only (as for Create); each of the twelve CastPointerTo<X> is verified to return the node the pointer was taken from (per-variant contract CastPointerToB)
 //@   ensures [round-trip] result != nil && result.AsPointer() == ptr
